@@ -605,8 +605,14 @@ def wsdl_race(c):
     c.check('document_is_whole', whole is True, detail=whole)
 
 
+SWITCH_FUNCTIONS = [('spyne/protocol/_base.py', 'get_cls_attrs'), ('spyne/protocol/_base.py', 'sort_fields'),
+                    ('spyne/util/cdict.py', '__getitem__'), ('spyne/util/memo.py', '__call__'),
+                    ('spyne/server/wsgi.py', 'handle_wsdl_request'), ('spyne/protocol/xml.py', '__validate_lxml'),
+                    ('spyne/model/complex.py', 'get_flat_type_info'), ('spyne/model/complex.py', '_get_flat_type_info')]
+
+
 def _mk_interference(family):
-    @obligation('C12.interference.%s' % family, replay=False,
+    @obligation('C12.interference.%s' % family,
                 targets=['spyne.server.wsgi:WsgiApplication.__call__', 'spyne.protocol._base:ProtocolMixin.get_cls_attrs',
                          'spyne.protocol._base:ProtocolMixin.sort_fields', 'spyne.util.cdict:cdict.__getitem__'],
                 bounded="preemption bound 1: request A (interpreted, cold instance) is suspended right after its k-th store "
@@ -614,7 +620,9 @@ def _mk_interference(family):
                         "resumes; pairs (A, B) from the request kinds of the family; at most 36 switch points per pair",
                 desc="R under real interleavings: with the interpreter as scheduler, B's response equals the response B gets "
                      "alone and A's response equals the response A gets alone, whatever shared write of A the switch follows",
-                assumptions=["the interference is a complete request (coarser switches are subsumed by G1-G4)"])
+                assumptions=["the interference is a complete request (coarser switches are subsumed by G1-G4)",
+                             "replay: two real threads under sys.settrace, A suspended before each of up to 40 lines of "
+                             "the cache-filling functions (pyvc/sched.py)"])
     def ob(c):
         kinds = [k for k in REQUEST_KINDS[family] if k != 'wsdl']
         a = c.choose(kinds[:3] + kinds[-1:], 'request_a')
@@ -633,6 +641,27 @@ def _mk_interference(family):
         reqs = requests_for(family)
         alone_a = serve(native, mk(), reqs[a])
         alone_b = serve(native, mk(), reqs[b])
+        if c.concrete:
+            # native replay / search on CPython: two real threads, A suspended before its k-th line inside the functions
+            # that fill shared state, B run to completion meanwhile (pyvc/sched.py), for up to 40 switch points
+            from pyvc import sched
+            n = sched.count_events(lambda: serve(native, mk(), reqs[a]), SWITCH_FUNCTIONS)
+            ks = list(range(1, n + 1))
+            if n > 40:
+                step = max(1, n // 40)
+                ks = ks[::step][:40]
+            bad_a, bad_b = [], []
+            for k in ks:
+                w = mk()
+                ra, rb, where = sched.run_with_switch(lambda: serve(native, w, reqs[a]), lambda: serve(native, w, reqs[b]),
+                                                      SWITCH_FUNCTIONS, k, b_timeout=0.3)
+                if rb != alone_b:
+                    bad_b.append((where, rb[0], alone_b[0], rb[1][-160:], alone_b[1][-160:]))
+                if ra != alone_a:
+                    bad_a.append((where, ra[0], alone_a[0], ra[1][-160:], alone_a[1][-160:]))
+            c.check('interfering_request_unaffected', not bad_b, detail=bad_b[:2])
+            c.check('interrupted_request_unaffected', not bad_a, detail=bad_a[:2])
+            return
         # dry run: how many unlocked shared writes does A make on a cold instance
         w0 = mk()
         m0 = SharedMonitor(c.interp, roots_of(w0), names_of(w0))
